@@ -71,6 +71,7 @@ def _locate_gap(text: str, rd: cst.Reading, start: int, end: int) -> dict:
             nxt = lf
             break
     lca = "source_code"
+    lca_parent = None
     if prev is not None and nxt is not None:
         anc = set()
         n = prev.node
@@ -81,10 +82,15 @@ def _locate_gap(text: str, rd: cst.Reading, start: int, end: int) -> dict:
         while n is not None:
             if n.id in anc:
                 lca = n.type
+                lca_parent = n.parent.type if n.parent is not None else None
                 break
             n = n.parent
-    return {"prev": prev.type if prev is not None else "", "next": nxt.type if nxt is not None else "",
-            "lca": lca, "prev2": prev2.type if prev2 is not None else ""}
+    d = {"prev": prev.type if prev is not None else "", "next": nxt.type if nxt is not None else "",
+         "lca": lca, "prev2": prev2.type if prev2 is not None else ""}
+    if lca == "attrpath" and lca_parent:
+        # whose path it is: a binding name, a selection, a has-attr test, an inherit
+        d["path_of"] = lca_parent
+    return d
 
 
 class RandomProgram:
